@@ -35,7 +35,14 @@ type Batch struct {
 	// MinimiseBudget per violation.
 	MinimiseBudget time.Duration
 	ExtraEvidence  func() map[string]any
+	// NoEvidence: do not write the evidence file (another batch of the same property does).
+	NoEvidence bool
+	violations int
+	summary    map[string]any
 }
+
+// Summary returns a coverage summary of a finished batch.
+func (b *Batch) Summary() map[string]any { return b.summary }
 
 type found struct {
 	c     *world.Case
@@ -216,9 +223,14 @@ func (b *Batch) Run() int {
 	if len(kf) > 0 {
 		extra["known_findings_reproduced"] = kf
 	}
-	if err := b.Stats.WriteEvidence(b.Tier, b.Seed, b.Level, b.Rule, nViol, extra); err != nil {
-		fmt.Fprintf(os.Stderr, "verif: writing evidence: %v\n", err)
-		return 2
+	b.violations = nViol
+	b.summary = map[string]any{"runs": b.Stats.Evals, "distinct_runs": len(b.Stats.Distinct), "verdicts": b.Stats.Verdicts, "faults_fired": b.Stats.Fired,
+		"probes": b.Stats.Probes, "simulated_seconds": float64(b.Stats.SimNs) / 1e9, "violations": nViol, "infra_runs": infra}
+	if !b.NoEvidence {
+		if err := b.Stats.WriteEvidence(b.Tier, b.Seed, b.Level, b.Rule, nViol, extra); err != nil {
+			fmt.Fprintf(os.Stderr, "verif: writing evidence: %v\n", err)
+			return 2
+		}
 	}
 	fmt.Printf("verif: property=%s runs=%d distinct=%d violations=%d infra=%d wall=%.0fs verdicts=%v\n",
 		b.Property, b.Stats.Evals, len(b.Stats.Distinct), nViol, infra, time.Since(start).Seconds(), b.Stats.Verdicts)
